@@ -95,6 +95,12 @@ func (h *H) ownedSh() map[int]int {
 
 // payee picks an output script: a wallet address (possibly as a staking/binding script) or a stranger.
 func (h *H) payee(games bool, noBinding bool, walletPct int) []byte {
+	return h.payeeMin(games, noBinding, walletPct, 2)
+}
+
+// payeeMin: staking scripts get a frozen period of at least minFrozen (a coinbase deposit is shown with
+// frozen period max(CoinbaseMaturity, frozen+1)-1; every legal period exceeds the coinbase maturity).
+func (h *H) payeeMin(games bool, noBinding bool, walletPct int, minFrozen int) []byte {
 	var all []*AddrInfo
 	for _, w := range h.Wallets {
 		all = append(all, w.Addrs...)
@@ -103,7 +109,7 @@ func (h *H) payee(games bool, noBinding bool, walletPct int) []byte {
 		ai := all[h.R.Intn(len(all))]
 		if games && h.R.Chance(h.px().opt.Games) {
 			if noBinding || h.R.Chance(50) {
-				return h.scriptStaking(ai, uint64(2+h.R.Intn(5)))
+				return h.scriptStaking(ai, uint64(minFrozen+h.R.Intn(5)))
 			}
 			// consensus admits 20-byte targets below the MASSIP0002 warm-up height and 22-byte targets from it on
 			return h.scriptBinding(ai, h.N.Height()+1 >= consensus.MASSIP0002WarmUpHeight)
@@ -212,7 +218,7 @@ func (h *H) sources(live []*wire.MsgTx, includeSpent bool) []src {
 		if !own && !h.px().opt.ForeignInputs {
 			// a foreign coin is used only when no later reorganisation of this history can remove it
 			// and (being excluded from every other generator) nothing else will spend it
-			if c.CB || c.Height+uint64(h.Opt.MaxReorg) >= next || c.Class != ClsStd {
+			if c.Height+uint64(h.Opt.MaxReorg) >= next || c.Class != ClsStd {
 				continue
 			}
 		}
@@ -494,14 +500,41 @@ func (h *H) BuildBlockP(ntx int, extra []*wire.MsgTx) *massutil.Block {
 		if nin > len(avail) {
 			nin = len(avail)
 		}
+		// Without option ForeignInputs a transaction that concerns a wallet never depends on a recent
+		// non-wallet output (whose ancestry a reorganisation may still conflict — the recorded finding
+		// stale-pending:foreign-input): such outputs are spent by transactions among strangers only.
+		owned := h.ownedSh()
+		safe := func(c *Coin) bool {
+			if h.px().opt.ForeignInputs {
+				return true
+			}
+			_, own := owned[c.Sh]
+			return own || c.Height+uint64(h.Opt.MaxReorg) < next
+		}
 		var ins []src
+		walletPct := 65
+		firstSafe := true
 		for j := 0; j < nin; j++ {
-			k := h.R.Intn(len(avail))
+			var idx []int
+			for k, c := range avail {
+				_, own := owned[c.Sh]
+				if j == 0 || (firstSafe && safe(c)) || (!firstSafe && !own) {
+					idx = append(idx, k)
+				}
+			}
+			if len(idx) == 0 {
+				break
+			}
+			k := idx[h.R.Intn(len(idx))]
 			c := avail[k]
+			if j == 0 && !safe(c) {
+				firstSafe = false
+				walletPct = 0
+			}
 			avail = append(avail[:k], avail[k+1:]...)
 			ins = append(ins, src{op: c.Op, val: c.Val, class: c.Class, param: c.Param, sh: c.Sh})
 		}
-		tx := h.buildFrom(ins, 65)
+		tx := h.buildFrom(ins, walletPct)
 		txs = append(txs, tx)
 		if h.R.Chance(40) {
 			th := tx.TxHash()
@@ -516,10 +549,10 @@ func (h *H) BuildBlockP(ntx int, extra []*wire.MsgTx) *massutil.Block {
 	var cb []sim.Out
 	cbGames := h.px().opt.CoinbaseGames
 	if h.R.Chance(70) {
-		cb = append(cb, sim.Out{Script: h.payee(cbGames, false, 65), Value: int64(1+h.R.Intn(50)) * 10000000})
+		cb = append(cb, sim.Out{Script: h.payeeMin(cbGames, false, 65, int(consensus.CoinbaseMaturity)), Value: int64(1+h.R.Intn(50)) * 10000000})
 	}
 	if h.R.Chance(20) {
-		cb = append(cb, sim.Out{Script: h.payee(cbGames, false, 65), Value: int64(1+h.R.Intn(50)) * 1000000})
+		cb = append(cb, sim.Out{Script: h.payeeMin(cbGames, false, 65, int(consensus.CoinbaseMaturity)), Value: int64(1+h.R.Intn(50)) * 1000000})
 	}
 	b := h.N.MakeBlock(h.N.Tip(), cb, txs)
 	h.defineBlock(b)
